@@ -1,0 +1,42 @@
+//go:build verif
+
+package blocker
+
+import (
+	"time"
+
+	"github.com/gauss-project/aurorafs/pkg/p2p"
+)
+
+// VerifSetResolution sets the sequencer resolution. Call it before New; with a
+// resolution (and wake-up time) of hours the two background timers never fire, so
+// the harness drives the sequence and the sweeps itself.
+func VerifSetResolution(d time.Duration) {
+	sequencerResolution = d
+}
+
+// VerifAdvance is one tick of the sequencer goroutine: the sequence advances iff
+// the network is available (same guard as the closure in New; the harness's
+// extractor checks that the closure still has this shape).
+func (b *Blocker) VerifAdvance() uint64 {
+	if b.blocklister.NetworkStatus() == p2p.NetworkStatusAvailable {
+		b.sequence.Inc()
+	}
+	return b.sequence.Load()
+}
+
+// VerifSweep runs one blocking sweep (what the wake-up goroutine calls).
+func (b *Blocker) VerifSweep() {
+	b.block()
+}
+
+// VerifSnapshot returns the sequence and, per flagged address (ByteString key), blockAfter.
+func (b *Blocker) VerifSnapshot() (uint64, map[string]uint64) {
+	b.mu.Lock()
+	defer b.mu.Unlock()
+	m := make(map[string]uint64, len(b.peers))
+	for k, p := range b.peers {
+		m[k] = p.blockAfter
+	}
+	return b.sequence.Load(), m
+}
